@@ -30,6 +30,10 @@ def corpus_cases():
         out.append(one("  method l(in interface[%d] a);" % n))
         out.append(one("  method m(%s);" % ", ".join("in interface p%d" % i for i in range(n))))
         out.append(one("  method n(%s);" % ", ".join("out uint8[] p%d" % i for i in range(n))))
+    # multiplicities that only differ from a small one beyond 8 bits
+    for n in (255, 256, 257, 260, 512, 65535):
+        out.append(one("  method l(in interface[%d] a);" % n))
+        out.append(one("  method lo(out interface[%d] a, in interface[%d] b);" % (n, n + 3 if n + 3 <= 65535 else n)))
     out.append(one("  method o(in Big s);", big))
     out.append(one("  method p(out Big s, in interface q);", big))
     return out
